@@ -19,7 +19,9 @@ pub fn exec(it: &mut Interp, toks: &[&str], out: &mut Vec<String>) -> bool {
                 return true;
             };
             let ids = tids(o);
-            let sim = Distance::new();
+            // the case's long-lived object (also used for the other ontologies of the case)
+            let sim = &it.sims.dist;
+            let mut stale = None;
             for a in &ids {
                 let ta = o.hpo(*a).unwrap();
                 for b in &ids {
@@ -38,7 +40,14 @@ pub fn exec(it: &mut Interp, toks: &[&str], out: &mut Vec<String>) -> bool {
                         pt,
                         f32bits(sim.calculate(&ta, &tb))
                     ));
+                    let fresh = Distance::new().calculate(&ta, &tb);
+                    if fresh.to_bits() != sim.calculate(&ta, &tb).to_bits() && stale.is_none() {
+                        stale = Some(format!("Distance({a},{b}): long-lived object {} fresh object {fresh}", sim.calculate(&ta, &tb)));
+                    }
                 }
+            }
+            if let Some(e) = stale {
+                out.push(format!("oracle FAIL dist: {e}"));
             }
             true
         }
